@@ -10,7 +10,7 @@ use crate::engine::{Probes, Property, RunView, Tier, Verdict};
 use crate::gen::{self, Dm, Doc, Profile};
 use crate::refsm::{Model, Obs, Quirks};
 use crate::scenario::{DocSrc, EvSpec, Knobs, PStep, PVal, Scenario, Step};
-use crate::trace::{compare, doc_uses_history, legality, predict_full, real_trace};
+use crate::trace::{compare_t, doc_uses_history, legality, predict_full, real_trace};
 use crate::util::{hash_str, mix2, Rng};
 use std::cell::RefCell;
 use std::collections::{BTreeMap, BTreeSet};
@@ -353,6 +353,7 @@ impl Property for ScProp {
         };
         let real = real_trace(v, sid);
         let pred = predict_full(doc, sid, &real.inputs, &self.quirks());
+        let term_start = pred.term_start;
         let (expected, diverged) = (pred.obs, pred.diverged);
         if diverged {
             verdict.discarded = Some("reference exceeded the microstep cap (diverging document)".into());
@@ -361,7 +362,8 @@ impl Property for ScProp {
         let uses_history = doc_uses_history(doc);
         verdict.evaluations = real.obs.len() as u64;
         let fams = self.families();
-        if let Some(d) = compare(&expected, &real, v.sc.knobs.snapshots, uses_history) {
+        let mut foreign: Option<&'static str> = None;
+        if let Some(d) = compare_t(&expected, &real, v.sc.knobs.snapshots, uses_history, term_start) {
             let rule = format!("{}.{}", self.id, d.family);
             let msg = format!(
                 "trace diverges from the W3C reference at observation {} (seq {}): expected {:?}, got {:?}; preceding:\n{}",
@@ -375,9 +377,10 @@ impl Property for ScProp {
                 let sig = format!("{}:{}", d.family, sig_of(&d.expected, &d.got));
                 verdict.violations.push(viol(self.id, &rule, msg, sig));
             } else {
+                // not this property's rule family: remember it, but still evaluate this property's own
+                // history checkers (they do not depend on the prediction)
                 verdict.other_rules.push(format!("refinement.{}", d.family));
-                verdict.discarded = Some(format!("diverges in a family owned by another property: {}", d.family));
-                return verdict;
+                foreign = Some(d.family);
             }
         }
 
@@ -623,6 +626,11 @@ impl Property for ScProp {
             }
             Variant::C09 => {
                 verdict.nontrivial = marks >= 2 || microsteps >= 2;
+            }
+        }
+        if let Some(f) = foreign {
+            if verdict.violations.is_empty() {
+                verdict.discarded = Some(format!("diverges in a family owned by another property: {}", f));
             }
         }
         verdict
